@@ -1805,6 +1805,9 @@ class AbstractComp:
     def enumerate(self, eng, p):
         return Custom(AbstractComp(Tup([PyI(eng.fresh_int("enum_i")), self.elt]), self.guard, self.coll))
 
+    def getitem(self, eng, p, i, node):
+        return self.elt              # an arbitrary member
+
     def iterate_abstract(self):
         return True
 
